@@ -168,6 +168,47 @@ fn boundary_pass() -> Vec<Op> {
     v
 }
 
+/// builders that are kept while the cwd changes, or executed twice: the wrapper has to hand out a builder that
+/// resolves its paths at the same moment as the wrapped backend's builder
+fn held_pass() -> Vec<Op> {
+    let s = |x: &str| x.to_string();
+    let b = |o: Op, c: &[&str]| Op::Held(Box::new(o), c.iter().map(|x| x.to_string()).collect());
+    let chmod = |p: &str, m: u32| Op::ChmodB(s(p), ChmodO { all: Some(m), dirs: None, files: None, sym: None, recurse: None, follow: false });
+    let chown = |p: &str| Op::ChownB(s(p), ChownO { uid: Some(1000), gid: Some(1000), recurse: None, follow: false });
+    let mut v = vec![
+        Op::MkdirP(s("/h1/d")),
+        Op::MkdirP(s("/h2/d")),
+        Op::WriteAll(s("/h1/f"), b"one".to_vec()),
+        Op::WriteAll(s("/h2/f"), b"two".to_vec()),
+        Op::WriteAll(s("/h1/only1"), b"1".to_vec()),
+        Op::WriteAll(s("/h2/only2"), b"2".to_vec()),
+    ];
+    let look = |v: &mut Vec<Op>| {
+        v.push(Op::AllPaths(s("/")));
+        for p in ["/h1/f", "/h2/f", "/h1/only1", "/h2/only2", "/h1/d", "/h2/d"] {
+            v.push(Op::Mode(s(p)));
+            v.push(Op::Owner(s(p)));
+        }
+        for p in ["/h1/copy", "/h2/copy", "/h1/copy2", "/h2/copy2", "/h1/d/c3", "/h2/d/c3"] {
+            v.push(Op::ReadAll(s(p)));
+        }
+    };
+    for (o, cwds) in [
+        (Op::CopyB(s("f"), s("copy"), CopyMode::None, false), vec!["/h1", "/h2"]),
+        (Op::CopyB(s("f"), s("copy2"), CopyMode::Files(0o640), false), vec!["/h1", "/h2", "/h1"]),
+        (Op::CopyB(s("only1"), s("d/c3"), CopyMode::None, false), vec!["/h1", "/h2"]),
+        (chmod("f", 0o600), vec!["/h1", "/h2"]),
+        (chmod("d", 0o711), vec!["/h1", "/h2", "/"]),
+        (chmod("only2", 0o640), vec!["/h1", "/h2"]),
+        (chown("f"), vec!["/h2", "/h1"]),
+        (chown("only1"), vec!["/h1", "/h2", "/h1"]),
+    ] {
+        v.push(b(o, &cwds));
+        look(&mut v);
+    }
+    v
+}
+
 fn entry_accessors_memfs(v: &Vfs, paths: &[String], rep: &mut Report) {
     for p in paths {
         let items: Vec<VfsEntry> = {
@@ -341,7 +382,8 @@ fn run_stdfs_transcript(ops: &[Op], ra: &str, rb: &str, rep: &mut Report, tag: &
     let wrapped = Vfs::stdfs();
     let mut hist: Vec<String> = vec![];
     for (i, op) in ops.iter().enumerate() {
-        if matches!(op, Op::SetCwd(_) | Op::ConfigDir(_)) || op.paths().iter().any(|p| !p.starts_with('/')) {
+        // (relative paths depend on the process cwd, which the two sandboxes share; a held builder sets it itself)
+        if matches!(op, Op::SetCwd(_) | Op::ConfigDir(_)) || (!matches!(op, Op::Held(..)) && op.paths().iter().any(|p| !p.starts_with('/'))) {
             continue;
         }
         if let Op::Copy(a, b) | Op::CopyB(a, b, _, _) = op {
@@ -470,6 +512,9 @@ fn c13(ctx: &Ctx, rep: &mut Report) {
     let pass = boundary_pass();
     run_memfs_transcript(&pass, rep, "boundary-argument pass");
     run_stdfs_transcript(&pass, &ra, &rb, rep, "boundary-argument pass");
+    let pass = held_pass();
+    run_memfs_transcript(&pass, rep, "held-builder pass");
+    run_stdfs_transcript(&pass, &ra, &rb, rep, "held-builder pass");
     handle_visibility(&Stdfs::new(), &Vfs::stdfs(), &format!("{}/hvd", ra), &format!("{}/hvd", ra), "Vfs::Stdfs", rep);
     handle_visibility(&Stdfs::new(), &Stdfs::new().upcast(), &format!("{}/hvd", ra), &format!("{}/hvd", ra), "Stdfs::upcast", rep);
     handle_visibility(&Memfs::new(), &Vfs::memfs(), "/hvd", "/hvd", "Vfs::Memfs", rep);
